@@ -23,6 +23,7 @@ type VKind struct {
 	Ordered bool                    // Keys()/Values() in insertion order, position aligned (LinkedHashMap)
 	Sorted  bool                    // Keys() ascending by key, Values() ascending by value (TreeBidiMap)
 	SortedKeys bool                 // Keys() ascending, Values() position aligned (the three trees, TreeMap)
+	ValDesc bool                    // Sorted: the value comparator is the reversed natural order
 	Bidi    bool                    // one-to-one: Put also drops the pair that held the value (C10)
 	GetKey  func(x int) (int, bool) // bidi only
 	Inv     func()
@@ -153,7 +154,11 @@ func VMapStep(m Map[int, int], keys, vals []int, kind VKind) ([]int, []int) {
 			if kind.Sorted {
 				for i := 1; i < len(gk); i++ {
 					v.Assert(gk[i-1] < gk[i], "C02:keys-ascending")
-					v.Assert(gv[i-1] < gv[i], "C02:values-ascending")
+					if kind.ValDesc {
+						v.Assert(gv[i-1] > gv[i], "C02:values-ascending-by-the-value-comparator")
+					} else {
+						v.Assert(gv[i-1] < gv[i], "C02:values-ascending")
+					}
 				}
 			}
 		}
